@@ -50,7 +50,11 @@
 //     variants behind the iterators), read(any), take(any).
 //   After every operation the set of available samples is compared, after every read/take the exact
 //   set of returned samples (identity = writer + sequence number), payload, order and the SampleInfo.
-//   Each (History, alphabet) pair is enumerated once per process; the tests report disjoint label sets.
+//   Each (History, alphabet) pair is enumerated once per process; the tests report disjoint label sets
+//   (xc_cache_core_* / masks_* / bare_*: everything but view state and ranks; xc_cache_view_state; the
+//   three rank tests are #[ignore]d, see there).
+// Found with this contract: F13 (mark_instances_viewed overwrote last_generation_accessed with a lower
+//   generation: dispose(k1), value(k1), read(any), read(any,max=1), read(any) reported NEW again).
 #[cfg(test)]
 mod verif_xc_datasample_cache {
   use std::{
@@ -146,6 +150,9 @@ mod verif_xc_datasample_cache {
   }
   fn label(id: Id) -> String {
     format!("w{}#{}", id.0 + 1, id.1)
+  }
+  fn names<'a>(ids: impl IntoIterator<Item = &'a Id>) -> String {
+    format!("[{}]", ids.into_iter().map(|id| label(*id)).collect::<Vec<_>>().join(", "))
   }
   // w1: 1,2,3..  (in order);  w2: 9,8,7.. (every later reception is an earlier sequence number)
   fn sn_for(w: usize, nth: i64) -> i64 {
@@ -431,36 +438,36 @@ mod verif_xc_datasample_cache {
       let got_ids: Vec<Id> = got.iter().map(|g| g.id.unwrap()).collect();
       let got_set: BTreeSet<Id> = got_ids.iter().copied().collect();
       if got_set.len() != got_ids.len() {
-        d.push(("c08.select", format!("a sample appears twice in one result: {:?}", got_ids)));
+        d.push(("c08.select", format!("a sample appears twice in one result: {}", names(&got_ids))));
         return false;
       }
       if take {
         if let Some(twice) = got_ids.iter().find(|id| self.taken.contains(id)) {
-          d.push(("c08.take.once", format!("take returned {} which an earlier take had already returned; result {:?}", label(*twice), got_ids)));
+          d.push(("c08.take.once", format!("take returned {} which an earlier take had already returned; result {}", label(*twice), names(&got_ids))));
           return false;
         }
       }
       if max == ALL {
         if got_set != cand_ids {
-          d.push(("c08.select", format!("returned {:?}, the samples matching the condition are {:?}", got_ids, cand_ids)));
+          d.push(("c08.select", format!("returned {}, the samples matching the condition are {}", names(&got_ids), names(&cand_ids))));
           return false;
         }
       } else {
         if got_ids.len() != std::cmp::min(max, cand.len()) || !got_set.is_subset(&cand_ids) {
-          d.push(("c08.select", format!("returned {:?}, expected {} of the matching samples {:?}", got_ids, std::cmp::min(max, cand.len()), cand_ids)));
+          d.push(("c08.select", format!("returned {}, expected {} of the matching samples {}", names(&got_ids), std::cmp::min(max, cand.len()), names(&cand_ids))));
           return false;
         }
         // a truncated result must not skip a lower sequence number of the same writer
         for id in &got_ids {
           if let Some(skipped) = cand_ids.iter().find(|c| c.0 == id.0 && c.1 < id.1 && !got_set.contains(c)) {
-            d.push(("c08.order", format!("truncated result {:?} contains {} but skips the matching lower sequence number {} of the same writer", got_ids, label(*id), label(*skipped))));
+            d.push(("c08.order", format!("truncated result {} contains {} but skips the matching lower sequence number {} of the same writer", names(&got_ids), label(*id), label(*skipped))));
           }
         }
       }
       for w in 0..2 {
         let sns: Vec<i64> = got_ids.iter().filter(|id| id.0 == w).map(|id| id.1).collect();
         if sns.windows(2).any(|p| p[0] >= p[1]) {
-          d.push(("c08.order", format!("samples of writer w{} appear in the order {:?} within the result {:?}", w + 1, sns, got_ids)));
+          d.push(("c08.order", format!("samples of writer w{} appear in the sequence-number order {:?} within the result {}", w + 1, sns, names(&got_ids))));
         }
       }
 
@@ -500,11 +507,11 @@ mod verif_xc_datasample_cache {
         // ranks (2.2.2.5.1.6)
         let want_rank = got[pos + 1..].iter().filter(|x| x.key == s.key).count() as i32;
         if info.sample_rank() != want_rank {
-          d.push(("c08.info.sample_rank", format!("{} reported sample_rank {}, but {} samples of instance k{} follow it in the result {:?}", what, info.sample_rank(), want_rank, s.key, got_ids)));
+          d.push(("c08.info.sample_rank", format!("{} reported sample_rank {}, but {} samples of instance k{} follow it in the result {}", what, info.sample_rank(), want_rank, s.key, names(&got_ids))));
         }
         let mrsic = self.avail.iter().filter(|x| x.key == s.key && got_set.contains(&x.id)).max_by_key(|x| x.recv).unwrap();
         if info.generation_rank() != mrsic.total() - s.total() {
-          d.push(("c08.info.generation_rank", format!("{} (generation {}) reported generation_rank {}; the most recent sample of instance k{} in the result {:?} is {} of generation {}, so it is {}", what, s.total(), info.generation_rank(), s.key, got_ids, label(mrsic.id), mrsic.total(), mrsic.total() - s.total())));
+          d.push(("c08.info.generation_rank", format!("{} (generation {}) reported generation_rank {}; the most recent sample of instance k{} in the result {} is {} of generation {}, so it is {}", what, s.total(), info.generation_rank(), s.key, names(&got_ids), label(mrsic.id), mrsic.total(), mrsic.total() - s.total())));
         }
         if info.absolute_generation_rank() != i.total() - s.total() {
           d.push(("c08.info.absolute_generation_rank", format!("{} (generation {}) reported absolute_generation_rank {}; the most recent sample received for instance k{} is of generation {}, so it is {}", what, s.total(), info.absolute_generation_rank(), s.key, i.total(), i.total() - s.total())));
@@ -694,9 +701,13 @@ mod verif_xc_datasample_cache {
     let mut seen: BTreeSet<&'static str> = BTreeSet::new();
     for &(a, h) in cells {
       let o = outcome(a, h);
-      let min = [500_000, 1_000_000, 200_000][a];
-      assert!(o.n >= min, "vacuity guard: only {} operation sequences enumerated", o.n);
-      assert!(o.n_nonempty * 10 >= o.n, "vacuity guard: only {} of {} sequences end in a non-empty read/take", o.n_nonempty, o.n);
+      // (a divergence of the sets of samples prunes the tree below it; it is reported by the test
+      // that decides its label, so the guard applies to complete enumerations only)
+      if o.witnesses.is_empty() {
+        let min = [500_000, 1_000_000, 200_000][a];
+        assert!(o.n >= min, "vacuity guard: only {} operation sequences enumerated", o.n);
+        assert!(o.n_nonempty * 10 >= o.n, "vacuity guard: only {} of {} sequences end in a non-empty read/take", o.n_nonempty, o.n);
+      }
       for (lbl, w) in &o.witnesses {
         if wanted(lbl) && seen.insert(lbl) {
           lines.push(w.clone());
@@ -734,8 +745,16 @@ mod verif_xc_datasample_cache {
     decide(&[(CORE, 2)], &is_core);
   }
   #[test]
-  fn xc_cache_masks_len4() {
-    decide(&[(MASKS, 0), (MASKS, 1), (MASKS, 2)], &is_core);
+  fn xc_cache_masks_len4_keeplast1() {
+    decide(&[(MASKS, 0)], &is_core);
+  }
+  #[test]
+  fn xc_cache_masks_len4_keeplast2() {
+    decide(&[(MASKS, 1)], &is_core);
+  }
+  #[test]
+  fn xc_cache_masks_len4_keepall() {
+    decide(&[(MASKS, 2)], &is_core);
   }
   #[test]
   fn xc_cache_bare_len5() {
